@@ -33,7 +33,7 @@ def plan(tier, seed):
 def minimums(tier):
     return {"plid.queries": 3000, "plid.short_id_queries": 500, "bmcid.queries": 1000, "id.queries": 1000, "src.queries": 2000,
             "srcexclude.queries": 300, "found.hidden_or_nonserviceable": 1000, "notfound.queries": 300,
-            "bmcid.zero_queries": 40}
+            "bmcid.zero_queries": 40, "bmcid.queries_with_unopenable_entries": 300}
 
 
 def forms(rng, v):
@@ -155,6 +155,22 @@ def run(spec, ctx):
             if out is None:
                 continue
             check_single(ctx, out, rc, e, ents, "bmc-id", "--bmc-id %d" % n)
+        # --bmc-id scans the files one by one: an entry that cannot be opened (dangling link, file pruned meanwhile) is skipped
+        links = []
+        for nm in ("0000_gone", "zzzz_gone", "%s_gone" % rng.choice(ents).name[:6]):
+            if not os.path.lexists(os.path.join(d.root, nm)):
+                os.symlink("no-such-file-%d" % i, os.path.join(d.root, nm))
+                links.append(nm)
+        for e in rng.sample(ents, min(3, len(ents))) + [None]:
+            n = e.pel.bmcid if e else rng.randrange(1 << 32)
+            while e is None and any(x.pel.bmcid == n for x in ents):
+                n = rng.randrange(1 << 32)
+            ctx.count("bmcid.queries_with_unopenable_entries")
+            rc, out = cli(["--bmc-id", str(n)], "bmc-id")
+            if out is not None:
+                check_single(ctx, out, rc, e, ents, "bmc-id", "--bmc-id %d (directory holds dangling links)" % n)
+        for nm in links:
+            os.unlink(os.path.join(d.root, nm))
         # -i
         for e in ents + [None]:
             v = e.pel.eid if e else rng.randrange(1 << 32)
